@@ -359,7 +359,9 @@ func runCheck(c *CheckDef, tier string, workers int, only, solver string, seed i
 	if c.Deadline != nil {
 		run.Deadline = time.Now().Add(c.Deadline(tier))
 	} else if tier == "thorough" {
-		run.Deadline = time.Now().Add(5 * time.Hour)
+		// thorough explores as far as it gets in 45 minutes; what it did not
+		// finish is listed in the evidence (reduced bound)
+		run.Deadline = time.Now().Add(45 * time.Minute)
 	} else {
 		// a quick check that does not finish in 25 minutes stops there: what it
 		// explored is reported, the rest is listed as not covered in the evidence
